@@ -68,7 +68,11 @@ class Func:
 
     def where(self, node=None):
         node = node if node is not None else self.node
-        return f'{self.module.relpath}:{getattr(node, "lineno", self.node.lineno)}'
+        origin = getattr(node, '_src', None)          # statement spliced in by the normaliser: report where it was written
+        if origin is not None:
+            return f'{origin[0]}:{origin[1]}'
+        line = getattr(node, 'lineno', self.node.lineno)
+        return f'{self.module.relpath}:{int(line) if isinstance(line, float) else line}'
 
     def __repr__(self):
         return f'<Func {self.key}>'
@@ -350,6 +354,39 @@ class Model:
     def all_funcs(self):
         for mod in self.modules.values():
             yield from mod.funcs.values()
+
+    def fully_inlined(self, func):
+        """A private helper no normalised function of the package refers to any more (every call was spliced into its
+        caller by the normaliser, no other reference to the name exists): its behaviour is entirely part of the callers'
+        bodies and is judged there."""
+        name = func.name
+        if not name.startswith('_') or name.startswith('__'):
+            return False
+        own = set(ast.walk(func.node))
+        for mod in self.modules.values():
+            for g in mod.funcs.values():
+                if g.parent is not None:
+                    continue
+                for n in ast.walk(g.node):
+                    if n in own:
+                        continue
+                    if (isinstance(n, ast.Attribute) and n.attr == name) or (isinstance(n, ast.Name) and n.id == name and isinstance(n.ctx, ast.Load)):
+                        return False
+            # module level and class level references (aliases, registrations)
+            for n in ast.walk(mod.tree):
+                if isinstance(n, (ast.FunctionDef, ast.AsyncFunctionDef)):
+                    continue
+            for st in mod.tree.body:
+                todo = [st]
+                while todo:
+                    x = todo.pop()
+                    if isinstance(x, (ast.FunctionDef, ast.AsyncFunctionDef)):
+                        todo.extend(x.decorator_list)
+                        continue
+                    if (isinstance(x, ast.Attribute) and x.attr == name) or (isinstance(x, ast.Name) and x.id == name and isinstance(x.ctx, ast.Load)):
+                        return False
+                    todo.extend(ast.iter_child_nodes(x))
+        return True
 
     def func_sources(self, keys):
         return {k: ast.unparse(self.func(k).node) for k in keys}
